@@ -380,6 +380,13 @@ def near_miss(draw, kind):
     else:
         how = "translated"
         o2 = X.translate(o, X.mul(step, d))
+    # the near-miss object must itself be valid (e.g. a displaced end point must not land on the other end)
+    if kind == "S":
+        assume(tuple(o2[1]) != tuple(o2[2]))
+    if kind in ("L", "H", "PL"):
+        assume(not X.is_zero(o2[2]))
+    if kind == "G":
+        assume(len(X.make_G(o2[1])[1]) == len(o2[1]))
     rep1 = draw(rep_for(kind, o))
     rep2 = draw(rep_for(kind, o2))
     return ("NM", kind, o, o2, rep1, rep2, how)
